@@ -696,6 +696,14 @@ pub fn c06_streams(agg: &mut Aggregate, args: &Args) {
                 payload.extend_from_slice(&0u32.to_le_bytes()); payload.extend_from_slice(&oracle::sha256(&comp)); payload.extend_from_slice(&(comp.len() as u32).to_le_bytes()); payload.extend_from_slice(&comp);
                 let k = 32 + rng.below(45) as usize; payload.truncate(k.min(payload.len())); "cut-in-block-header" }
             4 => { let n = rng.below(32) as usize; payload.truncate(n); "short-stream-start" }
+            6 => { // the stream-start FIELD of the header shorter than 32 bytes (down to empty) and a payload that
+                // begins with it and is shorter than 32 bytes as well: the credential check passes
+                let m = rng.below(32) as usize;
+                k3.start.truncate(m);
+                payload = k3.start.clone();
+                let extra = rng.below((32 - m) as u64) as usize;
+                payload.extend_from_slice(&rng.bytes(extra));
+                "short-stream-start-field" }
             5 => { // wrong hash
                 payload.extend_from_slice(&0u32.to_le_bytes()); payload.extend_from_slice(&[7u8; 32]); payload.extend_from_slice(&(comp.len() as u32).to_le_bytes()); payload.extend_from_slice(&comp);
                 payload.extend_from_slice(&1u32.to_le_bytes()); payload.extend_from_slice(&[0u8; 32]); payload.extend_from_slice(&0u32.to_le_bytes()); "wrong-block-hash" }
